@@ -45,8 +45,8 @@ def main():
             out["demo_changed_exit"] = b.returncode
             out["demo_changed_tail"] = (b.stdout + b.stderr)[-400:]
             if not skip:
-                t = sh("%s /venv/bin/python -m pytest -q -p no:cacheprovider -o addopts= -n 8 --timeout=900 "
-                       "--continue-on-collection-errors --doctest-modules tests src 2>&1 | tail -40" % env, timeout=3600)
+                t = sh("%s /venv/bin/python -m pytest -ra -q -p no:cacheprovider --timeout=900 "
+                       "--continue-on-collection-errors -n 8 2>&1 | tail -40" % env, timeout=3600)
                 tail = t.stdout
                 failed = re.findall(r"^(?:FAILED|ERROR) (\S+)", tail, flags=re.M)
                 always = json.load(open("/root/.vp/BASELINE.json"))["always_fail"]
